@@ -57,6 +57,18 @@ def check_abs(ctx, u, b, fl, cfg, bi, local, op, key, what, span):
     bad_const = only_const and in_storage and not tags
     if bad_const:
         msg = "%s is a constant position in the file used without the header position" % what
+    # the header position enters the sum once (units are a set: {rel, base} looks the same however often the base was added)
+    if not (bad_rel or bad_dbl or bad_const) and op is not None and op[0] in ("copy", "move"):
+        from linear import linear
+        lf = linear(fl, op)
+        nbase = 0
+        for atom, co in (lf[0].items() if lf else []):
+            if atom == "field:start_offset" or (isinstance(atom, int) and 1 <= atom <= b["argc"] and u.param_is_base(b, atom)):
+                nbase += co
+        if nbase > 1:
+            bad_dbl = True
+            msg = "%s contains the header position %d times (an absolute position to which the header position is added again): files with bytes in front of " \
+                  "the header are read at the wrong place" % (what, nbase)
     ctx.check(not (bad_rel or bad_dbl or bad_const), "C17-UNITS", key, msg, span, detail="%s: units %s" % (what, sorted(tags) or ["len/const"]))
 
 
